@@ -69,7 +69,30 @@ ROT_GRAD = ('<svg xmlns="http://www.w3.org/2000/svg" viewBox="0 0 100 100"><defs
             '<circle cx="60" cy="60" r="17" fill="url(#a)" transform="scale(1.37 0.71) rotate(-12.3)"/></svg>')
 
 
+# pairs of documents that share an id or a piece of markup: whatever one leaves behind in the process must not reach the other
+PAIR_DOCS = [
+    # a template reference that fails ...
+    '<svg xmlns="http://www.w3.org/2000/svg" xmlns:xlink="http://www.w3.org/1999/xlink" viewBox="0 0 100 100"><defs><linearGradient id="paint" xlink:href="#nowhere"/></defs>'
+    '<rect width="30" height="20" fill="url(#paint)" transform="translate(3 4)"/></svg>',
+    # ... and the same gradient id with a valid template
+    '<svg xmlns="http://www.w3.org/2000/svg" xmlns:xlink="http://www.w3.org/1999/xlink" viewBox="0 0 100 100"><defs><linearGradient id="base" x2="0.5"><stop offset="0" stop-color="red"/>'
+    '<stop offset="1" stop-color="blue"/></linearGradient><linearGradient id="paint" xlink:href="#base"/></defs><rect width="30" height="20" fill="url(#paint)" transform="translate(3 4)"/></svg>',
+    # the same clipPath markup, clipped by different clips
+    '<svg xmlns="http://www.w3.org/2000/svg" viewBox="0 0 100 100"><defs><clipPath id="x"><rect width="20" height="50"/></clipPath>'
+    '<clipPath id="c" clip-path="url(#x)"><rect width="60" height="60"/></clipPath></defs><rect width="90" height="90" fill="red" clip-path="url(#c)"/></svg>',
+    '<svg xmlns="http://www.w3.org/2000/svg" viewBox="0 0 100 100"><defs><clipPath id="x"><circle cx="40" cy="40" r="15"/></clipPath>'
+    '<clipPath id="c" clip-path="url(#x)"><rect width="60" height="60"/></clipPath></defs><rect width="90" height="90" fill="red" clip-path="url(#c)"/></svg>',
+    # stops outside [0, 1]
+    '<svg xmlns="http://www.w3.org/2000/svg" viewBox="0 0 100 100"><defs><linearGradient id="o"><stop offset="-0.2" stop-color="red" stop-opacity="0.5"/><stop offset="0.5" stop-color="lime"/>'
+    '<stop offset="130%" stop-color="blue" stop-opacity="0.9"/></linearGradient></defs><rect width="50" height="40" fill="url(#o)" transform="rotate(5)"/><rect width="5" height="4" fill="url(#o)"/></svg>',
+]
+
+
 def gen_case(rng, i):
+    if i >= 1000:
+        pass
+    elif len(EXTRA) + 3 <= i < len(EXTRA) + 3 + len(PAIR_DOCS):
+        return {"kind": "pair", "src": PAIR_DOCS[i - len(EXTRA) - 3], "ndigits": 3, "allow_text": False, "drop": False}
     if i < len(EXTRA):
         return {"kind": "extra", "src": EXTRA[i], "ndigits": 3, "allow_text": False, "drop": False}
     if i == len(EXTRA):
